@@ -1,6 +1,7 @@
 package pshell
 
 import (
+	"strings"
 	"fmt"
 	"os"
 	"path/filepath"
@@ -97,7 +98,36 @@ var genByte = rapid.OneOf(
 	rapid.Byte(),
 )
 
+// magicTokens are byte sequences that text-handling code is tempted to treat
+// specially: byte order marks, Unicode blanks and line separators, CR LF, a
+// shebang, NUL.
+var magicTokens = []string{"\xef\xbb\xbf", "\xff\xfe", "\xfe\xff", "\u00a0", "\u2028", "\u0085", "\u3000", "\r\n", "\r", "\v", "\f", "#!", "\x00", "--", "-n", "~"}
+
 var genStr = rapid.Custom(func(t *rapid.T) string {
+	switch rapid.IntRange(0, 19).Draw(t, "strKind") {
+	case 0, 1:
+		// magic tokens and ordinary bytes mixed; a token leads half of the time
+		var sb strings.Builder
+		for i, n := 0, rapid.IntRange(1, 4).Draw(t, "parts"); i < n; i++ {
+			if i%2 == 0 == rapid.Bool().Draw(t, "tokenFirst") {
+				sb.WriteString(rapid.SampledFrom(magicTokens).Draw(t, "token"))
+			} else {
+				sb.Write(rapid.SliceOfN(genByte, 0, 3).Draw(t, "bytes"))
+			}
+		}
+		return sb.String()
+	case 2:
+		// a run of one character whose length sits at a power of two (counters
+		// of 8 or 16 bits), optionally between plain letters
+		c := rapid.SampledFrom([]byte("''\"\\ a$\n")).Draw(t, "runByte")
+		n := rapid.SampledFrom([]int{255, 256, 256, 257, 511, 512, 513, 1024}).Draw(t, "runLen")
+		if rapid.IntRange(0, 15).Draw(t, "run16") == 0 {
+			n = rapid.SampledFrom([]int{65535, 65536, 65537}).Draw(t, "runLen16")
+		}
+		pre := rapid.SampledFrom([]string{"", "", "a", "ab"}).Draw(t, "runPre")
+		post := rapid.SampledFrom([]string{"", "", "z", " "}).Draw(t, "runPost")
+		return pre + strings.Repeat(string(c), n) + post
+	}
 	return string(rapid.SliceOfN(genByte, 0, 12).Draw(t, "s"))
 })
 
@@ -308,7 +338,7 @@ func TestC16Exhaustive(t *testing.T) {
 	}
 	stride := len(in)/h.Pick(2500, 40000) + 1
 	vk.Parallel(h, len(in), func(w, i int) {
-		c := SplitCase{In: toInts(in[i])}
+		c := SplitCase{In: toInts(in[i]), Src: i % 7}
 		o := &vk.Obs{}
 		slots[w].Enter(c)
 		var msg string
@@ -362,6 +392,7 @@ func TestC16Rand(t *testing.T) {
 		if rapid.IntRange(0, 7).Draw(t, "manyFields") == 0 {
 			c.Fields = rapid.SampledFrom([]int{14, 15, 16, 17, 31, 32, 33, 63, 64, 65}).Draw(t, "fields") - rapid.IntRange(0, 2).Draw(t, "fieldsOff")
 		}
+		c.Src = rapid.SampledFrom([]int{0, 0, 0, 1, 2, 3, 3, 4, 5, 6}).Draw(t, "src")
 		c.Frag = rapid.SliceOfN(rapid.IntRange(0, 7), 0, 6).Draw(t, "frag")
 		ok := false
 		for _, f := range c.Frag {
